@@ -108,7 +108,7 @@ theorem ite_or {α : Type} (a b : Bool) (X Y : α) :
     (if a then X else if b then X else Y) = (if (a || b) then X else Y) := by
   cases a <;> cases b <;> rfl
 
-theorem mem_rangeFrom (a b k : Nat) : k ∈ rangeFrom a b ↔ a ≤ k ∧ k < b := by
+theorem sym_mem_rangeFrom (a b k : Nat) : k ∈ rangeFrom a b ↔ a ≤ k ∧ k < b := by
   unfold rangeFrom
   rw [List.mem_range'_1]
   omega
@@ -151,7 +151,7 @@ theorem mem_symU (n : Nat) (az : Nat → Nat → Bool) (L : List Pair) (i : Nat)
     · rintro (h | ⟨k, hk, hc, hx⟩)
       · exact Or.inl h
       · right
-        rw [mem_rangeFrom] at hk
+        rw [sym_mem_rangeFrom] at hk
         simp only [Prod.mk.injEq] at hx
         obtain ⟨rfl, rfl⟩ := hx
         refine ⟨rfl, hk.1, hk.2, ?_⟩
@@ -164,7 +164,7 @@ theorem mem_symU (n : Nat) (az : Nat → Nat → Bool) (L : List Pair) (i : Nat)
     · rintro (h | ⟨rfl, h1, h2, h3⟩)
       · exact Or.inl h
       · right
-        refine ⟨c, (mem_rangeFrom _ _ _).mpr ⟨h1, h2⟩, ?_, rfl⟩
+        refine ⟨c, (sym_mem_rangeFrom _ _ _).mpr ⟨h1, h2⟩, ?_, rfl⟩
         simp only [Bool.or_eq_true, Bool.not_eq_true', beq_iff_eq, List.any_eq_true,
           List.mem_range, Bool.and_eq_true, setMem_iff]
         rcases h3 with h | h | ⟨j, hj, h4, h5⟩
@@ -200,7 +200,7 @@ theorem mem_symL (n : Nat) (az : Nat → Nat → Bool) (U : List Pair) (i : Nat)
     · rintro (h | ⟨k, hk, hc, hx⟩)
       · exact Or.inl h
       · right
-        rw [mem_rangeFrom] at hk
+        rw [sym_mem_rangeFrom] at hk
         simp only [Prod.mk.injEq] at hx
         obtain ⟨rfl, rfl⟩ := hx
         refine ⟨rfl, hk.1, hk.2, ?_⟩
@@ -213,7 +213,7 @@ theorem mem_symL (n : Nat) (az : Nat → Nat → Bool) (U : List Pair) (i : Nat)
     · rintro (h | ⟨rfl, h1, h2, h3⟩)
       · exact Or.inl h
       · right
-        refine ⟨r, (mem_rangeFrom _ _ _).mpr ⟨h1, h2⟩, ?_, rfl⟩
+        refine ⟨r, (sym_mem_rangeFrom _ _ _).mpr ⟨h1, h2⟩, ?_, rfl⟩
         simp only [Bool.or_eq_true, Bool.not_eq_true', beq_iff_eq, List.any_eq_true,
           List.mem_range, Bool.and_eq_true, setMem_iff]
         rcases h3 with h | h | ⟨j, hj, h4, h5⟩
@@ -463,7 +463,7 @@ theorem mem_symIPU (n : Nat) (az : Nat → Nat → Bool) (i : Nat) (S0 : List Pa
     · rintro (h | ⟨k, hk, hc, hx⟩)
       · exact Or.inl h
       · right
-        rw [mem_rangeFrom] at hk
+        rw [sym_mem_rangeFrom] at hk
         simp only [Prod.mk.injEq] at hx
         obtain ⟨rfl, rfl⟩ := hx
         refine ⟨rfl, hk.1, hk.2, ?_⟩
@@ -476,7 +476,7 @@ theorem mem_symIPU (n : Nat) (az : Nat → Nat → Bool) (i : Nat) (S0 : List Pa
     · rintro (h | ⟨rfl, h1, h2, h3⟩)
       · exact Or.inl h
       · right
-        refine ⟨c, (mem_rangeFrom _ _ _).mpr ⟨h1, h2⟩, ?_, rfl⟩
+        refine ⟨c, (sym_mem_rangeFrom _ _ _).mpr ⟨h1, h2⟩, ?_, rfl⟩
         simp only [Bool.or_eq_true, Bool.not_eq_true', beq_iff_eq, List.any_eq_true,
           List.mem_range, Bool.and_eq_true, setMem_iff]
         rcases h3 with h | h | ⟨j, hj, h4, h5⟩
@@ -492,7 +492,7 @@ theorem mem_symIPU (n : Nat) (az : Nat → Nat → Bool) (i : Nat) (S0 : List Pa
     · apply setMem_congr
       apply hS
       intro k' hk' heq
-      rw [mem_rangeFrom] at hk'
+      rw [sym_mem_rangeFrom] at hk'
       simp only [Prod.mk.injEq] at heq
       omega
     · apply setMem_congr
@@ -517,7 +517,7 @@ theorem mem_symIPL (n : Nat) (az : Nat → Nat → Bool) (i : Nat) (S0 : List Pa
     · rintro (h | ⟨k, hk, hc, hx⟩)
       · exact Or.inl h
       · right
-        rw [mem_rangeFrom] at hk
+        rw [sym_mem_rangeFrom] at hk
         simp only [Prod.mk.injEq] at hx
         obtain ⟨rfl, rfl⟩ := hx
         refine ⟨rfl, hk.1, hk.2, ?_⟩
@@ -530,7 +530,7 @@ theorem mem_symIPL (n : Nat) (az : Nat → Nat → Bool) (i : Nat) (S0 : List Pa
     · rintro (h | ⟨rfl, h1, h2, h3⟩)
       · exact Or.inl h
       · right
-        refine ⟨r, (mem_rangeFrom _ _ _).mpr ⟨h1, h2⟩, ?_, rfl⟩
+        refine ⟨r, (sym_mem_rangeFrom _ _ _).mpr ⟨h1, h2⟩, ?_, rfl⟩
         simp only [Bool.or_eq_true, Bool.not_eq_true', beq_iff_eq, List.any_eq_true,
           List.mem_range, Bool.and_eq_true, setMem_iff]
         rcases h3 with h | h | ⟨j, hj, h4, h5⟩
@@ -551,7 +551,7 @@ theorem mem_symIPL (n : Nat) (az : Nat → Nat → Bool) (i : Nat) (S0 : List Pa
     · apply setMem_congr
       apply hS
       intro k' hk' heq
-      rw [mem_rangeFrom] at hk'
+      rw [sym_mem_rangeFrom] at hk'
       simp only [Prod.mk.injEq] at heq
       omega
 
